@@ -8,6 +8,7 @@ CHECK = dict(
         "Refresh calls do not overlap for the metadata clause (one refresh worker); overlapping refreshes are exercised for conservation and for untorn metadata only",
         "timestamps passed to Record are strictly increasing per device in call order (call order and time order agree)",
         "counts stay far below the int32 range of Record.Queries",
+        "cmd unit: as the C14 cmd unit; a refresh 'as the worker runs it' is rec.Refresh with a context from the registered worker's own constructor; the worker's period is read out of the runtime timer behind its time.Ticker at an offset validated on tickers of known periods (inconclusive if that fails)",
     ],
     units=[
         dict(name="billstat", dir="internal/billstat", src="C16/billstat", runs=[
@@ -17,6 +18,9 @@ CHECK = dict(
         ]),
         dict(name="backendpb", dir="internal/backendpb", src="C16/backendpb", runs=[
             dict(name="wire", run="^TestVerifC16Wire$", quick=20000, thorough=800000, shards_thorough=4),
+        ]),
+        dict(name="cmd", dir="internal/cmd", src="C16/cmd", runs=[
+            dict(name="billstat-config", run="^TestVerifC16CmdBackend$", quick=300, thorough=12000, shards_quick=2, shards_thorough=6),
         ]),
     ],
 )
